@@ -89,12 +89,15 @@ def run_summaries(env, spec):
     return job.done()
 
 
-def run_job(env, spec):
+def run_job(env, spec, ref_in_body=False):
     if spec.get("kind") == "summaries":
         return run_summaries(env, spec)
     entry = lookup(spec)
     job = Job(spec.get("pid", PID), env, spec, entry, spec.get("catalogue", "checks.catalogue"))
-    job.cfg["want_ref"] = False      # the reference is evaluated per path afterwards (analysis mode, no forking)
+    # the reference is evaluated per path afterwards (analysis mode, no forking).  Where the traced code did not fork on a
+    # small operand the reference needs concretely (an exponent, a shift count) the job starts over with the reference
+    # computed inside the exploration, which case-splits on that operand (0..64; larger values are cut)
+    job.cfg["want_ref"] = ref_in_body
     kit = Kit(env, None, job.cfg["n"], job.cfg.get("r", 2))
     twin_done = False
     observations = 0
@@ -104,12 +107,15 @@ def run_job(env, spec):
         E.ENG.enter_analysis(t.path)
         kit.vals = job.vals
         if t.path.ok:
-            try:
-                t.ref = ("ok", entry.ref(kit))
-            except E.Unsupported:
-                raise
-            except Exception as ex:
-                t.ref = ("exc", ex)
+            if not ref_in_body:
+                try:
+                    t.ref = ("ok", entry.ref(kit))
+                except E.Unsupported as ex:
+                    if "not determined by the path" in str(ex):
+                        return run_job(env, spec, ref_in_body=True)
+                    raise
+                except Exception as ex:
+                    t.ref = ("exc", ex)
             ref_defs = list(E.ENG.axioms)
             facts = facts + ref_defs
             lin_facts = t.path.facts(linear_only=True) + [a for a in ref_defs if a.get_id() not in E.ENG.prod_axiom_ids]
